@@ -3,6 +3,7 @@
 package mp4
 
 import (
+	"encoding/hex"
 	"bytes"
 	"crypto/aes"
 
@@ -60,8 +61,18 @@ func c06ParseSizes(s string) [][]int {
 // It asserts both the round trip (C06) and the well-formedness of the encrypted form (C07).
 func VerifC06(codec string, scheme string, ivLen int, sizes string, extraBox bool, separate bool) {
 	var init *InitSegment
+	video := codec == "avc" || codec == "hevc"
 	if codec == "avc" {
 		init = fileInit(1, true)
+	} else if codec == "hevc" {
+		init = CreateEmptyInit()
+		init.AddEmptyTrack(90000, "video", "und")
+		hvps, _ := hex.DecodeString(c19HevcVPS)
+		hsps, _ := hex.DecodeString(c19HevcSPS)
+		hpps, _ := hex.DecodeString(c19HevcPPS)
+		if err := init.Moov.Trak.SetHEVCDescriptor("hvc1", [][]byte{hvps}, [][]byte{hsps}, [][]byte{hpps}, nil, true); err != nil {
+			panic("harness: SetHEVCDescriptor")
+		}
 	} else {
 		init = CreateEmptyInit()
 		init.AddEmptyTrack(48000, "audio", "und")
@@ -85,11 +96,17 @@ func VerifC06(codec string, scheme string, ivLen int, sizes string, extraBox boo
 	t := t0
 	for _, ns := range c06ParseSizes(sizes) {
 		var data []byte
-		if codec == "avc" {
+		if video {
 			for k, n := range ns {
-				typ := byte(0x65) // IDR slice
+				typ := byte(0x65) // AVC IDR slice
 				if k > 0 {
 					typ = 0x06 // SEI: not a video NAL unit
+				}
+				if codec == "hevc" {
+					typ = 19 << 1 // IDR_W_RADL (the second header byte is payload byte 1, symbolic)
+					if k > 0 {
+						typ = 39 << 1 // prefix SEI: not a video NAL unit
+					}
 				}
 				data = append(data, c06Nalu(n, typ)...)
 			}
@@ -135,10 +152,10 @@ func VerifC06(codec string, scheme string, ivLen int, sizes string, extraBox boo
 			}
 			vfy.Assert(tot == len(c), "sub-sample entries partition the sample")
 		} else {
-			vfy.Assert(codec != "avc" || len(c) == 0, "video samples carry sub-sample entries")
+			vfy.Assert(!video || len(c) == 0, "video samples carry sub-sample entries")
 		}
 		// protected-range rules for video NAL units (cenc)
-		if codec == "avc" && scheme == "cenc" {
+		if video && scheme == "cenc" {
 			prot := make([]bool, len(c))
 			p := 0
 			for _, ss := range subs {
@@ -155,6 +172,9 @@ func VerifC06(codec string, scheme string, ivLen int, sizes string, extraBox boo
 					vfy.Assert(!prot[q+k], "NAL length field stays clear")
 				}
 				isVideo := c[q+4]&0x1f <= 5
+				if codec == "hevc" {
+					isVideo = (c[q+4]>>1)&0x3f <= 31
+				}
 				vfy.Assert(!prot[q+4], "NAL header stays clear")
 				if !isVideo {
 					for k := 0; k < n; k++ {
